@@ -23,7 +23,6 @@ import (
 	"github.com/prometheus/prometheus/model/labels"
 	"github.com/prometheus/prometheus/promql/parser"
 
-	"github.com/thanos-community/promql-engine/execution"
 	"github.com/thanos-community/promql-engine/logicalplan"
 )
 
@@ -70,7 +69,7 @@ func operandStream(e parser.Expr, c *Case) (s sideStream, ok bool) {
 	if lb == 0 {
 		lb = 5 * time.Minute
 	}
-	op, err := execution.New(e, NewStore(c.Data), start, end, step, lb)
+	op, err := newOperatorTree(e, NewStore(c.Data), start, end, step, lb)
 	if err != nil {
 		return s, false
 	}
